@@ -558,8 +558,18 @@ func (f *Frame) evalUnary(st *State, x *ast.UnaryExpr) Val {
 			return f.mkPtr(v)
 		}
 		v := f.eval(st, inner)
-		f.c.note("address-of: pointer modelled as a copy of the pointee (no aliasing tracked)")
-		return f.mkPtr(v)
+		p := f.mkPtr(v)
+		if root, path, ok := f.lvaluePath(inner); ok {
+			// pointer to a variable or to one of its fields: writes through it are applied to that
+			// location as well (refs.go)
+			p.Refs = []refAlt{{Cond: "true", Root: root, Fields: path}}
+			for _, a2 := range v.Refs {
+				_ = a2
+			}
+			return p
+		}
+		f.c.note("address-of a non-path expression: pointer modelled as a copy of the pointee (no aliasing tracked)")
+		return p
 	case token.ARROW:
 		f.c.note("channel receive abstracted to an arbitrary value")
 		return f.havoc(st, "recv", f.typeOf(x))
